@@ -382,9 +382,20 @@ func (vc *VC) measureCheck(st *State, ci *calleeInfo, env *Env, site string) {
 	}
 	c := ci.contract
 	short := shortFuncKey(ci.key)
-	if eff.Terminates && !calleeTerminates(c) {
-		vc.oblige(st, "false", "terminates:callee "+short, "termination", site, vc.props(),
-			"the callee is known to terminate (its contract says terminates or decreases, or it is pure or trusted library code)", ci.key)
+	if eff.Terminates {
+		goal, why := "true", "the callee's contract says terminates or decreases"
+		switch {
+		case !calleeTerminates(c):
+			goal, why = "false", "the callee is known to terminate (its contract says terminates or decreases, or it is pure or trusted library code)"
+		case c.Trusted:
+			why = "trusted library code (A-LIB: library functions return)"
+			vc.usedTrusted["A-LIB-TERMINATES: "+short+" returns"] = true
+		case c.IsMethod || strings.Contains(ci.key, "#") || strings.HasPrefix(ci.key, "functype ") || strings.HasPrefix(ci.key, "fieldfunc "):
+			why = "interface-level / callback contract says terminates: proved for the repository's implementations, A-CALLBACK for user code"
+		case c.Pure && !c.Terminates && len(c.Decreases) == 0:
+			why = "pure function (loop free or specification only)"
+		}
+		vc.oblige(st, goal, "terminates:callee "+short, "termination", site, vc.props(), why, ci.key)
 	}
 	node := vc.termNode(ci)
 	if !vc.termGraph().recursive(vc.key, node) {
